@@ -30,5 +30,32 @@ func registerMoreIntrinsics(e *Engine) {
 		st.objs[id].Poison = "opaque runtime type descriptor"
 		ret(Ptr{id, e.k64(0)})
 	}
+	e.intr[dgo+"internal/rt.UnpackEface"] = func(st *State, fn *ssa.Function, args []Value, ret func(Value)) {
+		tid := st.allocN(64, nil, "opaque *rt.GoType")
+		st.objs[tid].Poison = "opaque runtime type descriptor"
+		vid := st.allocN(16, nil, "opaque eface data")
+		ret(Struct{Ptr{tid, e.k64(0)}, Ptr{vid, e.k64(0)}})
+	}
 	_ = c
+	// functions replaced by "return the zero value": runtime/reflection glue that only
+	// feeds the assembly hand-over or error texts
+	for _, n := range zeroStubs {
+		e.intr[n] = zeroStub
+	}
+}
+
+var zeroStubs = []string{
+	dgo + "internal/rt.findReflectRtypeItab",
+}
+
+func zeroStub(st *State, fn *ssa.Function, args []Value, ret func(Value)) {
+	res := fn.Signature.Results()
+	switch res.Len() {
+	case 0:
+		ret(nil)
+	case 1:
+		ret(st.e.zero(res.At(0).Type()))
+	default:
+		ret(st.e.zero(res))
+	}
 }
